@@ -34,6 +34,7 @@ const (
 	kfQuoted   = "C17-quoted-key-resplit"
 	kfMapSS    = "C17-mapss-missing-key-present"
 	kfEmptyKey = "C17-empty-key-typed-map"
+	kfMapRoot  = "C17-envmap-omits-map-root-data"
 )
 
 // avoider returns the callback the generators hand to invalidSteps: it answers whether the
@@ -66,7 +67,8 @@ type RootD struct {
 	Short  string        `json:"short,omitempty"` // field tagged "id"
 	Long   string        `json:"long,omitempty"`  // field tagged "ID"
 	Any    *VD           `json:"any,omitempty"`
-	Row    *VD           `json:"row,omitempty"` // kinds "row" / "prow": the root value is this Row / a pointer to it
+	Row    *VD           `json:"row,omitempty"`  // kinds "row" / "prow": the root value is this Row / a pointer to it
+	Data   *VD           `json:"data,omitempty"` // kind "data": the root value is this value (a map[any]any, ...)
 }
 
 // Op is one operation on the current stack.
@@ -128,6 +130,10 @@ func (r RootD) data() any {
 	case "prow":
 		if r.Row != nil {
 			return vList("ptr", *r.Row).Go()
+		}
+	case "data":
+		if r.Data != nil {
+			return r.Data.Go()
 		}
 	}
 	return nil
@@ -736,7 +742,9 @@ type PathCase struct {
 	Pad   int      `json:"pad,omitempty"`
 }
 
-var binds = []string{"root", "scope", "set", "field", "field-name", "pfield"}
+// "anyroot": the value sits under the key "v" of a map[any]any that is the root DATA (no scope
+// binds it): the first path step goes through Lookup's root-data fallback.
+var binds = []string{"root", "scope", "set", "field", "field-name", "pfield", "anyroot"}
 
 func (c PathCase) stack(v any) (*vuego.Stack, string) {
 	switch c.Bind {
@@ -755,6 +763,8 @@ func (c PathCase) stack(v any) (*vuego.Stack, string) {
 		return vuego.NewStackWithData(map[string]any{"other": 1}, rootT{Plain: "p", Any: v}), "Any"
 	case "pfield":
 		return vuego.NewStackWithData(nil, &rootT{Plain: "p", Any: v}), "any"
+	case "anyroot":
+		return vuego.NewStackWithData(map[string]any{"other": 1}, map[any]any{"v": v, 1: "int key", "w": "x"}), "v"
 	}
 	return vuego.NewStack(map[string]any{"v": v}), "v"
 }
@@ -915,6 +925,12 @@ func TestProp(t *testing.T) {
 					if root.Row != nil {
 						c.Names = rowUniverse
 					}
+					if root.Kind == "data" && known.Open(kfMapRoot) {
+						// region of the open finding: EnvMap agreement for names bound only by the
+						// keys of a map used as root data
+						c.EnvSkip = c.Names
+						rec.Excluded(kfMapRoot)
+					}
 					nt, cls := classifySeq(c)
 					if !run.Each(rec, "enum", c, nt, cls, checkSeq) {
 						return false
@@ -944,7 +960,7 @@ func TestProp(t *testing.T) {
 	// values, valid and invalid steps, three uniform spellings.
 	pn, pok := enumPaths(rec, known, run.Pick(3, 4), shard, shards)
 	if pok {
-		rec.Exhaustive(fmt.Sprintf("all paths of <= %d steps (valid and invalid continuations, 3 spellings, 6 bindings in rotation) over %d zoo values (%d paths)", run.Pick(3, 4), len(zoo()), pn))
+		rec.Exhaustive(fmt.Sprintf("all paths of <= %d steps (valid and invalid continuations, 4 spellings, %d bindings in rotation) over %d zoo values (%d paths)", run.Pick(3, 4), len(binds), len(zoo()), pn))
 	}
 
 	// ---- random histories
